@@ -5,7 +5,7 @@ feature edits in the repository are picked up), with
   * workspace-inherited keys made literal,
   * dev-dependencies dropped,
   * tokio / tokio-util patched to the models in /verif/models,
-  * tracing compiled with max_level_off (log output is not the subject),
+  * tracing replaced by a no-op model (log output is not the subject; real tracing crashes the Kani compiler),
   * the harness entry file named through REMOC_VERIF_HARNESS (see remoc/src/lib.rs hook).
 """
 import os
@@ -42,9 +42,6 @@ def generate(verif_root: str, crate_dir: str) -> dict:
         if m and m.group(1) in wp:
             line = "%s = %s" % (m.group(1), lit(wp[m.group(1)]))
         line = line.replace('path = "../remoc_macro"', 'path = "%s/remoc_macro"' % REPO)
-        if re.match(r'^tracing\s*=\s*"[^"]+"\s*$', line):
-            ver = re.search(r'"([^"]+)"', line).group(1)
-            line = 'tracing = { version = "%s", features = ["max_level_off", "release_max_level_off"] }' % ver
         out_lines.append(line)
     text = "\n".join(out_lines)
     text += """
@@ -58,6 +55,8 @@ path = "%(repo)s/remoc/src/lib.rs"
 [patch.crates-io]
 tokio = { path = "%(verif)s/models/tokio" }
 tokio-util = { path = "%(verif)s/models/tokio-util" }
+tracing = { path = "%(verif)s/models/tracing" }
+tracing-attributes = { path = "%(verif)s/models/tracing-attributes" }
 """ % {"repo": REPO, "verif": verif_root}
     # make sure cfg(kani) / cfg(remoc_verif) do not warn
     text = text.replace(
